@@ -221,6 +221,8 @@ func copyVal(v Value) Value {
 		s := make(Tuple, len(v))
 		copy(s, v)
 		return s
+	case Wide:
+		return v.val()
 	}
 	return v
 }
